@@ -339,7 +339,7 @@ def crash_enumeration(ctx: Ctx, hbin: Path, drv: Path, n_hist: int) -> None:
 
 def spec() -> Spec:
     def post(ctx, results):
-        n = {"quick": 40, "thorough": 600}[ctx.tier]
+        n = {"quick": 30, "thorough": 500}[ctx.tier]
         drv = LEAN / ".lake" / "build" / "bin" / "drv_c04"
         try:
             crash_enumeration(ctx, harness(), drv, n)
@@ -354,7 +354,7 @@ def spec() -> Spec:
         generate=generate,
         extract=extract_store,
         nontrivial=nontrivial,
-        budget={"quick": 500, "thorough": 8000},
+        budget={"quick": 300, "thorough": 6000},
         search_budget={"quick": 1500, "thorough": 12000},
         post=post,
         rule="(a) histories of put/overwrite/get/sweep/restart/planted files (and store_chunk/tick on a Node) on a real scratch "
